@@ -28,6 +28,11 @@ def random_cases(rng, n):
             a = [Fraction(rng.randint(-24, 24), 4) for _ in range(m)]
             if all(v == 0 for v in a):
                 a[0] = Fraction(1)
+        narrow = None
+        if rng.random() < 0.15:      # small integers in a narrow integer array: every square fits the dtype, their sum does not
+            a = [Fraction(rng.choice([-11, -9, -7, 5, 8, 10, 11, 3])) for _ in range(max(m, 6))]
+            m = len(a)
+            narrow = rng.choice(["int8", "int8", "int16"])
         mode = rng.choice(["db", "db", "linear", "std"])
         per_sample = rng.random() < 0.3 and mode != "std"
         k = m if per_sample else 1
@@ -37,7 +42,7 @@ def random_cases(rng, n):
             snr = [R(rng.choice([Fraction(1, 4), 1, 4, 9, 25, 100, Fraction(1, 100), 7, Fraction(5, 2)])) for _ in range(k)]
         out.append({"fn": "noise", "a": [R(v) for v in a], "mode": mode, "snr": snr, "std": R(rng.choice([Fraction(1, 2), 1, 2, Fraction(7, 4), 0])),
                     "draw": [R(Fraction(rng.randint(-16, 16), 8)) for _ in range(m)], "via": rng.choice(["function", "weaver"]),
-                    "container": rng.choice(["array", "list", "int"]), "snr_container": rng.choice(["array", "list", "uint8", "uint16", "int64", "int8"])})
+                    "container": narrow or rng.choice(["array", "list", "int"]), "snr_container": rng.choice(["array", "list", "uint8", "uint16", "int64", "int8"])})
     return out
 
 
